@@ -424,8 +424,16 @@ def rule_first_item(ctx, facts, rule):
         br = fn.calls_re(r"ops::try_trait::Try>?::branch$", cleanup=False)
         need = 2 if p.endswith("from_span") else 3
         fr = fn.calls_re(r"FromResidual(<.*>)?>?::from_residual$", cleanup=False)
-        unsafe_steps = [fn.term(x)["callee"] for x in fn.calls_re(
-            r"Option::<T>::(unwrap|expect)$|Result::<T, E>::(unwrap|expect)$|Index(<.*>)?>?::index$", cleanup=False)]
+        from . import panics as _panics
+        inv = _panics.Inventory(ctx, facts)
+        unsafe_steps = []
+        for x in fn.calls_re(r"Option::<T>::(unwrap|expect)$|Result::<T, E>::(unwrap|expect)$|Index(<.*>)?>?::index$", cleanup=False):
+            how = inv.guard_index(fn, x) if fn.term(x)["callee"].endswith("::index") else inv.guard_unwrap(fn, x)
+            if how is None:
+                unsafe_steps.append(fn.term(x)["callee"])
+        nones = [b for b, blk in enumerate(fn.blocks) if not blk["cleanup"] for st in blk["stmts"]
+                 if st["k"] == "assign" and st["lhs"]["l"] == 0 and st["rv"]["k"] == "agg" and st["rv"].get("variant") == "None"]
+        need = need - len(nones)
         ctx.check(len(br) >= need and len(fr) >= need and not unsafe_steps, rule, p, fn.span,
                   "%s yields None (through `?`) when the span is a no-op / no scope is open / the token is empty -- no unwrap, no index"
                   % p.rsplit("::", 1)[1], "%d `?` steps" % len(br),
